@@ -620,3 +620,6 @@ PROPS["C16"]["rule"] += (" Both parts also generate cron expressions without a f
 PROPS["C16"]["rule"] += " No job may fire inside a span in which the cron is certainly suspended (from the moment the loop has taken the suspend command to the call of Resume)."
 PROPS["C18"]["rule"] += " Further error classes: an ill-typed id, an ill-typed uri (carried by a body or a batch element), an ill-typed set."
 PROPS["C18"]["rule"] += " The operations include /api/loc/util/js (scripts with and without a value, missing / ill-typed / non-compiling code)."
+PROPS["C06"]["rule"] += (" After an injected storage failure (reported as an error) the remaining operations run; what the failed operation "
+                         "names is unspecified until an acknowledged operation defines it again, everything else - in particular every "
+                         "operation acknowledged afterwards - must be there, live and rebuilt from storage.")
